@@ -687,7 +687,7 @@ class Scenario:
             cmax, cmin = CL[q % 4], CL[(q // 2 + 1) % 4]
             t = ["linear", "cubic"][(q // 4 + q) % 2]
             off = q % 3 != 2
-            nocut = q % 5 == 4
+            nocut = q % 5 == 3
             noisy = q % 7 == 3
         hm = r.choice([2000, 5000, 10000, 20000, 50000, 100000])
         u = hm // 20                            # position unit (micro)
